@@ -146,12 +146,24 @@ def make_user_code(rng, dim=None):
                             'ops': [[list(k), v] for s in stabs for k, v in ops[s].items()]}
 
 
-def shuffled_csr(v, rng):
-    """1 x len(v) csr row holding v with its column indices in random order"""
+def shuffled_csr(v, rng, stored_zeros=False):
+    """1 x len(v) csr row holding v with its column indices in random order; with stored_zeros some
+    positions where v is 0 are stored explicitly with the value 0 (what `(H[i] + H[j])` followed by
+    `.data %= 2` produces) -- the same vector, another legitimate sparse representation"""
     from scipy.sparse import csr_matrix
     cols = [i for i, x in enumerate(v) if x]
-    rng.shuffle(cols)
-    return csr_matrix((np.ones(len(cols), dtype='uint8'), np.array(cols, dtype=int), np.array([0, len(cols)])),
+    data = [1] * len(cols)
+    if stored_zeros:
+        zeros = [i for i, x in enumerate(v) if not x]
+        rng.shuffle(zeros)
+        extra = zeros[:max(1, min(len(zeros), 1 + len(v) // 4))]
+        cols += extra
+        data += [0] * len(extra)
+    perm = list(range(len(cols)))
+    rng.shuffle(perm)
+    cols = [cols[i] for i in perm]
+    data = [data[i] for i in perm]
+    return csr_matrix((np.array(data, dtype='uint8'), np.array(cols, dtype=int), np.array([0, len(cols)])),
                       shape=(1, len(v)))
 
 
@@ -188,6 +200,9 @@ def add_code_streams(s_asm: Stream, s_conv: Stream, s_css: Stream, label, code, 
         s_conv.add(f'frombsf {qs} {vec(v)}',
                    guarded(lambda: op_str(code.from_bsf(shuffled_csr(v, rng)), sort=True)),
                    {'code': label, 'what': 'from_bsf sparse row with unsorted indices', 'bsf': v}, tag=tag)
+        s_conv.add(f'frombsf {qs} {vec(v)}',
+                   guarded(lambda: op_str(code.from_bsf(shuffled_csr(v, rng, stored_zeros=True)), sort=True)),
+                   {'code': label, 'what': 'from_bsf sparse row with explicitly stored zeros', 'bsf': v}, tag=tag)
     # CSS structure
     if m:
         Hs = stack(Hd)
@@ -298,6 +313,9 @@ def check_code(code, label, rng, library=True):
             op2 = code.from_bsf(shuffled_csr(v, rng))
             if dict(op2) != dict(op):
                 return f'from_bsf of a sparse row (unsorted column indices) differs from from_bsf of the dense vector v={vec(v)}'
+            op3 = code.from_bsf(shuffled_csr(v, rng, stored_zeros=True))
+            if dict(op3) != dict(op):
+                return f'from_bsf of a sparse row with explicitly stored zeros differs from from_bsf of the dense vector v={vec(v)}'
         if H:
             Ha = np.array(H)
             xr = [any(r[:n]) for r in H]
